@@ -3441,8 +3441,7 @@ impl<'a, R: FileManager> FrontendCtx<'a, R> {
             let ty = ty?;
             let opt_ty = match k.optional {
                 Some(opt) => match opt {
-                    TruePlusMinus::True => Optionality::Optional(ty),
-                    TruePlusMinus::Plus => Optionality::Required(ty),
+                    TruePlusMinus::True | TruePlusMinus::Plus => Optionality::Optional(ty),
                     TruePlusMinus::Minus => {
                         return self
                             .error(&anchor, DiagnosticInfoMessage::MappedTypeMinusNotSupported);
@@ -3475,7 +3474,8 @@ impl<'a, R: FileManager> FrontendCtx<'a, R> {
         }
         let make_opt = |ty: Runtype| -> Optionality<Runtype> {
             match k.optional {
-                Some(TruePlusMinus::True) => Optionality::Optional(ty),
+                // `+?` is the explicit spelling of `?`
+                Some(TruePlusMinus::True) | Some(TruePlusMinus::Plus) => Optionality::Optional(ty),
                 _ => Optionality::Required(ty),
             }
         };
